@@ -31,6 +31,13 @@ class FixAssertTupleTransform(LibcstResultTransformer, NameResolutionMixin):
                     if not assert_test.elements:
                         return updated_node
                     new_asserts = self._make_asserts(assert_node)
+                    # blank lines and comments around the statement stay
+                    new_asserts[0] = new_asserts[0].with_changes(
+                        leading_lines=updated_node.leading_lines
+                    )
+                    new_asserts[-1] = new_asserts[-1].with_changes(
+                        trailing_whitespace=updated_node.trailing_whitespace
+                    )
                     self._report_new_lines(original_node, len(new_asserts))
                     return cst.FlattenSentinel(new_asserts)
         return updated_node
